@@ -6,6 +6,7 @@ of a pending job until that job itself is finalized" and "do not collapse jobs i
 no provenance").  All theorems: every program, every schedule.
 -/
 import RedunModel.Lemmas.SchedCse
+import RedunModel.Lemmas.ExprMemo
 namespace RedunModel.C06
 open RedunModel.SchedCore
 
@@ -48,5 +49,45 @@ def demo : Prog :=
 
 example : (run demo [.pop, .complete 0, .pop, .pop, .pop, .pop]).submits = [0, 1, 2] := by decide
 example : nSub demo (run demo [.pop, .complete 0, .pop, .pop, .pop, .pop]) (7, 0) = 1 := by decide
+
+/-! ## each distinct expression reached from the same parent job is evaluated once (`_pending_expr`) -/
+open RedunModel.ExprMemo in
+/-- For every history of `_evaluate_apply` calls and job finalizations in which a finalized job evaluates
+nothing any more (`Live`): a later request for an expression with the same hash under the same parent is
+handed the evaluation of the earlier request and starts nothing; requests that differ in parent or hash
+get different evaluations. -/
+theorem expr_once (ops : List ExprMemo.Op) (hl : ExprMemo.Live ops) :
+    (ExprMemo.run {} ops).Pairwise ExprMemo.Rel := ExprMemo.run_pairwise ExprMemo.inv_init hl
+
+/-- …hence at most one evaluation is ever started per (parent job, expression hash). -/
+theorem expr_started_at_most_once (ops : List ExprMemo.Op) (hl : ExprMemo.Live ops) (par h : Nat) :
+    ((ExprMemo.run {} ops).filter
+      (fun a => decide (a.parent = par ∧ a.hash = h) && a.out.started)).length ≤ 1 := by
+  have hp := expr_once ops hl
+  generalize ExprMemo.run {} ops = l at hp
+  induction l with
+  | nil => simp
+  | cons a l ih =>
+    have hrest := ih (List.Pairwise.of_cons hp)
+    by_cases ha : (decide (a.parent = par ∧ a.hash = h) && a.out.started) = true
+    · have hnone : l.filter (fun a => decide (a.parent = par ∧ a.hash = h) && a.out.started) = [] := by
+        rw [List.filter_eq_nil_iff]
+        intro b hb hbt
+        have hr := (List.pairwise_cons.mp hp).1 b hb
+        simp only [Bool.and_eq_true, decide_eq_true_eq] at ha hbt
+        have := (hr.1 (by rw [ha.1.1, ha.1.2, hbt.1.1, hbt.1.2])).2
+        rw [this] at hbt
+        exact absurd hbt.2 (by simp)
+      rw [List.filter_cons, if_pos ha, hnone]; simp
+    · rw [List.filter_cons, if_neg ha]
+      exact hrest
+
+/-- the hypothesis is needed: after a (hypothetical) evaluation under a finalized parent the table is gone -/
+example : (ExprMemo.run {} [.eval 1 7, .finalize 1, .eval 1 7]).map (·.out.started) = [true, true] := by decide
+/-- non-vacuity: the same expression three times under parent 1 (one evaluation), once under parent 2, another one under 1 -/
+example : (ExprMemo.run {} [.eval 1 7, .eval 1 7, .eval 2 7, .eval 1 8, .finalize 2, .eval 1 7]).map
+    (fun a => (a.out.id, a.out.started)) = [(0, true), (0, false), (1, true), (2, true), (0, false)] := by decide
+example : ExprMemo.Live [.eval 1 7, .eval 1 7, .eval 2 7, .eval 1 8, .finalize 2, .eval 1 7] := by
+  simp [ExprMemo.Live]
 
 end RedunModel.C06
